@@ -74,7 +74,9 @@ func genOid() string {
 		case i == 1:
 			parts = append(parts, fmt.Sprint(rng.Intn(40)))
 		case chance(1, 6):
-			parts = append(parts, fmt.Sprint(choose([]int{127, 128, 16383, 16384, 2097152, 1 << 31})))
+			parts = append(parts, fmt.Sprint(choose([]int{127, 128, 16383, 16384, 2097152, 1<<31 - 1})))
+		case chance(1, 400):
+			parts = append(parts, fmt.Sprint(choose([]int{1 << 31, 1 << 40}))) // not readable by encoding/asn1: must be a configuration error
 		default:
 			parts = append(parts, fmt.Sprint(rng.Intn(300)))
 		}
@@ -409,7 +411,7 @@ func genManipulations() J {
 	m := J{}
 	for len(m) == 0 {
 		if chance(1, 3) {
-			m[".version"] = choose([]int{-1, 0, 1, 2, 3, 127, 128, 1 << 31})
+			m[".version"] = choose([]int{-1, 0, 1, 2, 3, 127, 128, 1<<31 - 1})
 		}
 		if chance(1, 3) {
 			m[".signatureAlgorithm"] = genOid()
